@@ -75,6 +75,15 @@ fn block_strategy() -> impl Strategy<Value = Block> {
             let behavior = if merged { sentences } else { vec![sentences[0].clone()] };
             arms.push(Arm { states, behavior, bracket_single });
         }
+        // now and then a later arm refines a state that an earlier group already covered
+        // (`A | B => common, B => specific`): like successive `.on()` calls, the later one wins
+        if arms.len() >= 2 && assign[0] % 2 == 0 && assign[4] == 3 {
+            let s0 = arms[0].states[0];
+            let last = arms.len() - 1;
+            if !arms[last].states.contains(&s0) {
+                arms[last].states.push(s0);
+            }
+        }
         arms
     });
     (default, arms, any::<bool>()).prop_map(|(default, arms, trailing_comma)| Block { default, arms, trailing_comma })
